@@ -11,7 +11,7 @@ from vlib.core import Leg, Result, exc_failure, excluded_hazards
 ID = 'C12'
 RULE = ('cases: object reference = name x quoting (plain / "..." / `...`; quoted bodies over the full character set minus the quote and backslash, non-empty) x '
         'optional qualifier (any quoting; written qualifier.name without blanks) x optional alias (with/without AS, any quoting) x drawn whitespace around AS, alias '
-        'and commas x context (select list, FROM list, JOIN, UPDATE target, INSERT INTO target, subquery select list) x 0-3 neighbour items on either side; oracle: the '
+        'and commas x context (select list, FROM list, JOIN, UPDATE target, INSERT INTO target, select list / FROM list of a subquery that is aliased with or without AS, joined, or an IN operand, select list of a CTE body) x 0-3 neighbour items on either side; oracle: the '
         'tree contains an Identifier spanning exactly the written reference whose get_real_name/get_parent_name/get_alias/get_name/has_alias equal what was written, '
         'quotes removed; re-rendering the same reference with other whitespace and other neighbours gives the same answers. non-trivial: >=2 of {qualifier, alias, '
         'quoting, non-ASCII, neighbours on both sides}; distinct by (reference text, context)')
@@ -20,7 +20,7 @@ ASSUMPTIONS = ['the dot of qualifier.name is written without blanks (the propert
 
 HAZ = 'dollar_or_hash_in_name_after_dot'
 WS = [' ', ' ', ' ', '  ', '\t', '\n', ' \n ', '\r\n']
-CONTEXTS = ['select', 'from', 'join', 'update', 'insert', 'subselect']
+CONTEXTS = ['select', 'from', 'join', 'update', 'insert', 'subselect', 'subselect', 'cte', 'subfrom']
 
 _start = 'abcdfghijklmopqrstvwyzACDFGHIJKLMOPQRSTVWYZ_ÀÖÜéßàüЖ中'
 _rest = 'abcxyzABC_0123456789éÜЖ$#'
@@ -90,9 +90,17 @@ def cases(draw, hazard):
             head = 'INSERT INTO' + w()
             lst, off = ref, 0
             text = head + ref + w() + draw(st.sampled_from(['VALUES (1)', 'SELECT 1', 'DEFAULT VALUES']))
+        elif ctx == 'cte':
+            head = 'WITH q AS (SELECT' + w()
+            text = head + lst + w() + 'FROM' + w() + 't9)' + w() + 'SELECT * FROM q'
+        elif ctx == 'subfrom':
+            head = 'SELECT * FROM (SELECT * FROM' + w()
+            text = head + lst + draw(st.sampled_from([') AS g', ') g', ') AS g WHERE 1 = 1']))
         else:
-            head = 'SELECT * FROM (SELECT' + w()
-            text = head + lst + w() + 'FROM' + w() + 't9) sub'
+            # the enclosing subquery is aliased with or without AS, or is the operand of IN
+            head = draw(st.sampled_from(['SELECT * FROM (SELECT', 'SELECT * FROM (SELECT', 'SELECT * FROM t0 JOIN (SELECT', 'SELECT 1 WHERE 2 IN (SELECT'])) + w()
+            tail = [') sub', ') AS sub', ') as g WHERE 1 = 1'] if 'FROM (' in head else [') AS j ON j.a = 1', ') j ON 1 = 1'] if 'JOIN' in head else [')', ') AND 3 = 3']
+            text = head + lst + w() + 'FROM' + w() + 't9' + draw(st.sampled_from(tail))
         start = len(head) + off
         renders.append({'text': text, 'start': start, 'end': start + len(ref), 'both_sides': bool(before and after)})
     return {'ctx': ctx, 'qual': qual, 'name': name, 'alias': alias, 'as': as_, 'renders': renders}
